@@ -325,6 +325,10 @@ func (g *gen) catalogue(k *keyEntry) {
 	}
 	withClaim("time-both", "exp and nbf in the past", true, true, func(c map[string]any) { c["exp"] = now - 3600; c["nbf"] = now - 7200 })
 	withClaim("time-both", "exp and nbf in the future", true, true, func(c map[string]any) { c["exp"] = now + 7200; c["nbf"] = now + 3600 })
+	withClaim("time-both", "nbf absent, exp in the past", true, true, func(c map[string]any) { c["exp"] = now - 3600; delete(c, "nbf") })
+	withClaim("time-both", "nbf and iat absent, exp in the past", true, true, func(c map[string]any) { c["exp"] = now - 3600; delete(c, "nbf"); delete(c, "iat") })
+	withClaim("time-both", "exp absent, nbf in the future", true, true, func(c map[string]any) { c["nbf"] = now + 3600; delete(c, "exp") })
+	withClaim("time-both", "only iss and sub", true, false, func(c map[string]any) { delete(c, "nbf"); delete(c, "iat"); delete(c, "exp") })
 
 	// issuers
 	for _, iss := range spec.Issuers {
